@@ -33,3 +33,10 @@ package smartclip
 //@   ensures result == (exists k :: 0 <= k && k < len(r) && ppar(outer, r[k][0], r[k][1], len(outer)))
 //@   loop 1: invariant -1 <= rangeindex && rangeindex < len(r) && (forall k :: 0 <= k && k <= rangeindex ==> !ppar(outer, r[k][0], r[k][1], len(outer)))
 //@   loop 2: invariant 0 <= i && i <= len(outer) && j == ite(i == 0, len(outer)-1, i-1) && inside == ppar(outer, x, y, i) && 0 <= rangeindex && rangeindex < len(r) && same(x, r[rangeindex][0]) && same(y, r[rangeindex][1]) && (forall k :: 0 <= k && k < rangeindex ==> !ppar(outer, r[k][0], r[k][1], len(outer)))
+
+// ---------------------------------------------------------------- the typed entry points accept degenerate members
+// Ring/Polygon/MultiPolygon are memory-safe for every input including polygons without rings and empty
+// rings or holes (two genuine panics found here were repaired: MultiPolygon indexing p[0]/p[1:] of a
+// zero-ring polygon, clipRings indexing r[0] of an empty ring). clipRings' own join loop is not under
+// contract: the callers are checked against an empty contract of it.
+//@ func clipRings(box, rings)
